@@ -17,11 +17,13 @@ func NewJSONDecoder() Decoder {
 }
 
 func (dec *jsonDecoder) Init(reader io.Reader) error {
+	verifYield("decoder.Init")
 	dec.decoder = *json.NewDecoder(reader)
 	return nil
 }
 
 func (dec *jsonDecoder) Decode() (*CandidateNode, error) {
+	verifYield("decoder.Decode")
 
 	var dataBucket CandidateNode
 	err := dec.decoder.Decode(&dataBucket)
